@@ -252,6 +252,23 @@ def lang_file_cases(draw, tier):
         as_kind = lambda k, s: s if k == "dfa" else dict(s, eps="ε", rep="dd_set")
         n = m + draw(st.sampled_from([-1, 0, 0, 1, 2]))
         return {"kind": kind, "ref_kind": rkind, "ref": as_kind(rkind, ref), "answer": as_kind(kind, ans), "answer_class": "late_difference", "n": max(n, 1)}
+    if draw(st.integers(0, 11)) == 0:
+        # the same for expressions and grammars: a* against 1 + a + ... + a^m (first difference a^(m+1)), with the length given explicitly
+        m = draw(st.integers(3, 6))
+        kind = draw(st.sampled_from(["regexp", "cfg"]))
+        if kind == "regexp":
+            fin = ["1"]
+            for k in range(1, m + 1):
+                w = ["s", "a"]
+                for _ in range(k - 1):
+                    w = [".", w, ["s", "a"]]
+                fin = ["+", fin, w]
+            pair = (["*", ["s", "a"]], fin)
+        else:
+            pair = ({"V": ["S"], "T": ["a"], "R": [["S", ["a", "S"]], ["S", []]], "S": "S"},
+                    {"V": ["S"], "T": ["a"], "R": [["S", []]] + [["S", ["a"] * k] for k in range(1, m + 1)], "S": "S"})
+        ref, ans = pair if draw(st.booleans()) else (pair[1], pair[0])
+        return {"kind": kind, "ref_kind": kind, "ref": ref, "answer": ans, "answer_class": "late_difference", "n": m + draw(st.sampled_from([0, 1, 1, 2]))}
     kind = draw(st.sampled_from(["dfa", "nfa", "cfg", "regexp", "pda", "tm"]))
     rkind = kind if draw(st.integers(0, 2)) else draw(st.sampled_from(["dfa", "nfa", "regexp", "cfg"]))
     ref = spec_of(draw, rkind)
